@@ -86,6 +86,9 @@ class ParamsTrans:
             grad = self.tape.jacobian(
                 vals, self.vm.trainable_variables, unconnected_gradients="zero"
             )
+            # one entry per variable, each of the shape of vals: put the
+            # variables on the last axis, as in the list case
+            grad = np.stack([np.reshape(i, (-1,)) for i in grad], axis=-1)
         if not keep:
             del self.tape
         # print(grad)
